@@ -16,6 +16,7 @@ model; here: the table.) Wall-clock behaviour is not modelled (partial): the vir
 `pins` and margins are the tie.
 -/
 import Side.Pins
+import Side.Config
 open GoStd Side.Pins
 
 namespace Props.C15
@@ -386,5 +387,40 @@ example : KeysNodup (init 5 0) ∧ SweepInv (init 5 0) 0 := by
   exact ⟨by simp [KeysNodup, init], sweepInv_init 5 0⟩
 example : (Side.Pins.get (add (init 5 0) [1] [2] 0 3) [1] 7).2 = some [2] ∧ (Side.Pins.get (add (init 5 0) [1] [2] 0 3) [1] 8).2 = none := by
   decide
+
+/-! ### "the configured dialog timeout": which number that is (main.go start-up, Side.Config)
+
+The `timeout` of the table above is fixed once, at start-up. Stream `cfg deftimeout` runs the real
+`getDefaultDialogTimeout` against `Side.Config.defaultDialogTimeout`; `Expected.K15` pins the two lines
+of `startProxy` that apply it; the `wire` stage starts whole configurations (two services, a service
+setting against the environment). -/
+
+/-- A service that configures a positive `dialogTimeout` gets exactly that, whatever the environment says. -/
+theorem C15_configured_timeout_wins (configured : Int) (h : 0 < configured) (env : Option Bytes) :
+    Side.Config.dialogTimeout configured env = configured := by
+  unfold Side.Config.dialogTimeout
+  have : ¬ configured ≤ 0 := by omega
+  simp [this]
+
+/-- Without a setting of its own and without the environment variable a service gets 1200 s. -/
+theorem C15_default_timeout (configured : Int) (h : configured ≤ 0) :
+    Side.Config.dialogTimeout configured none = 1200 := by
+  simp [Side.Config.dialogTimeout, h, Side.Config.defaultDialogTimeout]
+
+/-- The environment fills in only for a service without a setting: then the value `strconv.Atoi` reads from it,
+and 1200 when it is not a number. -/
+theorem C15_environment_fills_in (configured : Int) (h : configured ≤ 0) (v : Bytes) :
+    Side.Config.dialogTimeout configured (some v) = (atoi v).getD 1200 := by
+  simp [Side.Config.dialogTimeout, h, Side.Config.defaultDialogTimeout]
+
+/-- The timeout of one service is a function of that service's setting and the environment alone: whatever was
+resolved for the service listed before it plays no part (there is no state to carry it). -/
+theorem C15_timeout_per_service (c1 c2 : Int) (env : Option Bytes) (h : 0 < c2) :
+    (Side.Config.dialogTimeout c1 env, Side.Config.dialogTimeout c2 env).2 = c2 :=
+  C15_configured_timeout_wins c2 h env
+
+example : Side.Config.dialogTimeout 1 (some [54, 48, 48]) = 1 := by decide                -- yaml 1, env "600"
+example : Side.Config.dialogTimeout 0 (some [54, 48, 48]) = 600 := by decide +kernel      -- no setting, env "600"
+example : Side.Config.dialogTimeout 0 (some [49, 50, 115]) = 1200 := by decide +kernel    -- no setting, env "12s"
 
 end Props.C15
